@@ -131,6 +131,13 @@ func (t *tr) expr(e ast.Expr) string {
 		}
 	}
 	// [group SM2] end
+	// [group Drv] begin
+	if t.s.group == "Drv" {
+		if v, ok := t.drvExpr(e); ok {
+			return v
+		}
+	}
+	// [group Drv] end
 	switch x := e.(type) {
 	case *ast.Ident:
 		if x.Name == "true" || x.Name == "false" {
@@ -332,6 +339,13 @@ func (t *tr) block(stmts []ast.Stmt, k string, own, outer scope) string {
 		}
 	}
 	// [group SM2] end
+	// [group Drv] begin
+	if t.s.group == "Drv" {
+		if out, ok := t.drvStmt(s, rest, k, own, outer, nested); ok {
+			return out
+		}
+	}
+	// [group Drv] end
 	switch x := s.(type) {
 	case *ast.ReturnStmt:
 		if len(x.Results) >= 1 {
@@ -1345,6 +1359,9 @@ func main() {
 	writeGroup(root, out, "SM2")
 	// [group SM2] end
 	writeGroup(root, out, "Hop") // [group Hop]
+	// [group Drv] begin
+	writeGroup(root, out, "Drv")
+	// [group Drv] end
 	reportIgnored(out)           // [newfields]
 }
 
@@ -1382,6 +1399,11 @@ func writeGroup(root, out, group string) {
 			stmts = t.sm2Select(stmts)
 		}
 		// [group SM2] end
+		// [group Drv] begin
+		if s.group == "Drv" {
+			stmts = t.drvSelect(stmts)
+		}
+		// [group Drv] end
 		if s.loop != "" {
 			stmts = t.loopBody(stmts)
 		}
